@@ -343,6 +343,24 @@ def evaluate(item):
                     else:
                         if result is None or result.id != new_id or not canon.typed_eq(canon.plain(result.statepoint()), new):
                             bad("clone-returns-wrong-job", f"clone returned {result!r}")
+                    # chained step: a re-key through the handle that was just moved must carry everything once more,
+                    # now inside the destination project (the handle's state point file location has to have followed)
+                    if op == "move" and not viol:
+                        new2 = dict(new, zz_after_move=1)
+                        id2 = canon.job_id(new2)
+                        try:
+                            actor.statepoint["zz_after_move"] = 1
+                            dir2 = os.path.join(qp, "workspace", id2)
+                            if not os.path.isdir(dir2) or os.path.lexists(dst_dir):
+                                bad("rekey-after-move-lost", f"re-key through the moved handle: {id2} present={os.path.isdir(dir2)}, "
+                                    f"{new_id} still present={os.path.lexists(dst_dir)}; Q holds "
+                                    f"{sorted(os.listdir(os.path.join(qp, 'workspace')))}")
+                            elif _payload_snapshot(dir2) != src_payload:
+                                bad("rekey-after-move-payload", "payload differs after a re-key through the moved handle")
+                            elif os.path.realpath(actor.path) != os.path.realpath(dir2) or actor.id != id2:
+                                bad("rekey-after-move-handle", f"moved handle reports {actor.id} at {actor.path}, expected {id2}")
+                        except Exception as e:  # noqa
+                            bad("rekey-after-move-raises", f"re-key through the moved handle raised {type(e).__name__}: {e}")
                     try:
                         signac.Project(pp).check()
                         signac.Project(qp).check()
